@@ -14,6 +14,11 @@
 //	        executes at most its in-flight operation and exits, the call returns the context's error.
 //
 // Checked on every case: impl = y (correspondence), ref = g (spec validation), impl = ref (the property).
+// One race cannot be decided through the step hook: a goroutine started by a `go` statement of a function value
+// that the goroutine of Execute has in flight at the cancellation makes its frame before or after Execute returns
+// (which refreshes the root id the frame takes). The Lean side computes both (y, y2) and says when the race exists
+// (racy); impl = y2 is accepted on those inputs only. The class label of a case (finding F09-3) is the negation of
+// Props.C09.Dom at the moment of the cancellation, computed by the Lean side from the input (dom).
 package main
 
 import (
@@ -42,6 +47,7 @@ type node struct {
 	bk     string
 	canc   bool
 	hostcb bool
+	held   bool
 }
 
 type entryT struct {
@@ -149,13 +155,16 @@ func buildCalib(rd rendered, res runResult, atPause []string, release bool) (c c
 						return nil
 					}
 					last.kind, last.site = "c", siteOf(evs, pi)
+					if last.held && last.site == "w" {
+						last.site = "h"
+					}
 					stack = append(stack, level{e.Frame, &last.body})
 				}
 			}
 			if g == 0 {
 				c.Entry[ei] = len(entries) - 1
 			}
-			n := &node{kind: "s", hostcb: e.HostCB}
+			n := &node{kind: "s", hostcb: e.HostCB, held: e.Held}
 			if len(e.Ticks) > 0 {
 				n.kind = "t"
 				lastTick = rd.Ticks[e.Ticks[len(e.Ticks)-1]]
@@ -315,14 +324,14 @@ func implOutcome(res runResult) string {
 // ---- one program: calibration and every cancellation point ---------------------------------------
 
 type caseOut struct {
-	K       int    `json:"k"` // 0 = the quiet point
-	Impl    string `json:"impl"`
-	Ref     string `json:"ref"`
+	K       int      `json:"k"` // 0 = the quiet point
+	Impl    string   `json:"impl"`
+	Ref     string   `json:"ref"`
 	Shapes  []string `json:"shapes,omitempty"`
-	LatUS   int64  `json:"lat_us"`
-	NumGOK  bool   `json:"numg_ok"`
-	NumG    int    `json:"numg"`
-	EntryAt int    `json:"entry"`
+	LatUS   int64    `json:"lat_us"`
+	NumGOK  bool     `json:"numg_ok"`
+	NumG    int      `json:"numg"`
+	EntryAt int      `json:"entry"`
 }
 
 type progOut struct {
@@ -671,7 +680,7 @@ func main() {
 	// the Lean side of one case: y (machine, extracted facts), y2 (the same with the one undecidable race taken the
 	// other way), g (the specification), dom (Props.C09.Dom at the cancellation), racy (is that race possible)
 	type leanAns struct {
-		y, y2, g   string
+		y, y2, g  string
 		dom, racy bool
 	}
 	ask := func(line string, k int, budget int) (a leanAns) {
